@@ -34,3 +34,19 @@ package header
 //@     exit_assert len(tableNames) == len(records)
 //@   loop 2
 //@     invariant totalSize == accepted(w) - old(accepted(w)) && wfaults(w) == old(wfaults(w))
+
+//@ func Read(r io.ReaderAt) (info *Info, err error)   props: C02 C18 C03
+//@   requires r != nil
+//@   ensures faults(r) > old(faults(r)) ==> err != nil
+//@   ensures err == nil ==> info != nil && len(info.Toc) >= 1
+//@   modifies faults(r)
+//@   loop 0
+//@     invariant 0 <= i && i <= numTables && numTables <= 280 && len(coverage) == i && len(h.Toc) == i && h != nil && fresh(h)
+//@     invariant faults(r) == old(faults(r)) && (isnil(coverage) || fresh(coverage)) && h.Toc != nil && fresh(h.Toc)
+//@     decreases numTables - i
+//@   loop 1
+//@     invariant 0 <= i && i <= 4
+//@     decreases 4 - i
+//@   loop 2
+//@     invariant 1 <= i && i <= len(coverage)
+//@     decreases len(coverage) - i
